@@ -19,7 +19,7 @@ theorem wit0_inv : Inv wit0 := by
   refine ⟨⟨⟨?_, ?_, ?_, ?_, ?_, ?_, ?_, ?_⟩, ?_⟩, ?_, ?_, ?_, ?_, ?_, ?_⟩ <;>
     simp [wit0, Tbl.node?] <;> try decide
 
-theorem wit0_varsOK : VarsOK wit0.tbl := by
+theorem wit0_varsBij : VarsBij wit0.tbl := by
   refine ⟨?_, ?_, ?_, ?_⟩
   · intro v i h
     simp only [wit0, TreeMap.getElem?_insert] at h ⊢
@@ -49,7 +49,7 @@ theorem wit0_varsOK : VarsOK wit0.tbl := by
     subst this
     exact ⟨"x", by simp [wit0]⟩
 
-theorem VarsOK.frame {m m' : Mgr} (hf : Frame m m') (h : VarsOK m.tbl) : VarsOK m'.tbl := by
+theorem VarsBij.frame {m m' : Mgr} (hf : Frame m m') (h : VarsBij m.tbl) : VarsBij m'.tbl := by
   have hv := hf.vars
   have hl := hf.l2v
   have hn : m'.tbl.nvars = m.tbl.nvars := by simp [Tbl.nvars, hv]
@@ -62,7 +62,7 @@ theorem VarsOK.frame {m m' : Mgr} (hf : Frame m m') (h : VarsOK m.tbl) : VarsOK 
 /-- there is a manager satisfying every hypothesis of the C03 / C04 / C11 theorems that holds
 a non-constant function: the variable `x` -/
 theorem witness :
-    ∃ (m : Mgr) (u : Int), Inv m ∧ m.lastLen = none ∧ VarsOK m.tbl ∧ m.tbl.Mem u ∧
+    ∃ (m : Mgr) (u : Int), Inv m ∧ m.lastLen = none ∧ VarsBij m.tbl ∧ m.tbl.Mem u ∧
       m.tbl.vars["x"]? = some 0 ∧ m.tbl.nvars = 1 ∧ (∀ a, den m.tbl u a = a 0) ∧
       InSupp m.tbl u 0 := by
   obtain ⟨g, m', _, hs, hg, hl, hd⟩ := varNode_off wit0 wit0_inv rfl 0
@@ -78,7 +78,7 @@ theorem witness :
     have h1 := levelOf_node m'.tbl g n hg1 hn'
     have h2 := hs.inv.wf.toWF.lvl_lt _ _ hn'
     omega
-  refine ⟨m', g, hs.inv, hs.off rfl, wit0_varsOK.frame hs.frame, hg, ?_, hn, hd, ?_⟩
+  refine ⟨m', g, hs.inv, hs.off rfl, wit0_varsBij.frame hs.frame, hg, ?_, hn, hd, ?_⟩
   · rw [hs.frame.vars]; simp [wit0]
   · have := InSupp.here (t := m'.tbl) hg1 hn'
     rwa [hlv] at this
